@@ -620,6 +620,74 @@ class OGen:
       self.emit(f"  class {inner}:", f"    {self.name()} = {self.r.choice(_VALUES)}")
     return c
 
+  # -- annotated unions (pep484 "compat" pairs pruned by the printer in parameter position) ---------
+  _COMPAT = [("int", "float"), ("int", "complex"), ("float", "complex"), ("bytearray", "bytes"),
+             ("memoryview", "bytes"), ("int", "float", "complex"), ("bytearray", "memoryview", "bytes")]
+  _PLAIN = ["str", "bool", "List[int]", "Dict[str, int]", "Tuple[int, ...]", "Set[str]", "list", "range",
+            "frozenset", "None"]
+  _LITERAL = {"int": "0", "float": "1.5", "complex": "2j", "bytes": "b'q'", "bytearray": "bytearray()",
+              "str": "'d'", "bool": "False", "None": "None", "list": "[]", "range": "range(2)",
+              "List[int]": "[1]", "Dict[str, int]": "{}", "Set[str]": "set()", "frozenset": "frozenset()"}
+
+  def union_ann(self, classes, compat=True):
+    """(annotation, member with a literal) for a union of 3-6 members in shuffled order."""
+    r = self.r
+    members = list(r.choice(self._COMPAT)) if compat else []
+    if compat and r.random() < 0.3:
+      members += [m for m in r.choice(self._COMPAT) if m not in members]
+    pool = self._PLAIN + classes[:4]
+    for m in r.sample(pool, r.randint(2, 3)):
+      if m not in members:
+        members.append(m)
+    members = members[:6]
+    r.shuffle(members)
+    lit = next((self._LITERAL[m] for m in members if m in self._LITERAL), "None")
+    if "None" in members and r.random() < 0.6:
+      rest = [m for m in members if m != "None"]
+      inner = rest[0] if len(rest) == 1 else f"Union[{', '.join(rest)}]"
+      return f"Optional[{inner}]", lit
+    return f"Union[{', '.join(members)}]", lit
+
+  def annotated_unions(self, classes):
+    r = self.r
+    u = lambda compat=True: self.union_ann(classes, compat)
+    for _ in range(r.randint(2, 3)):          # module-level functions
+      (a, _), (b, bl), (k, kl), (ret, rl) = u(), u(), u(), u(r.random() < 0.7)
+      (c, _) = u()
+      self.emit(f"def {self.name()}({self.name()}: {a}, {self.name()}: {b} = {bl}, *{self.name()}: {c},",
+                f"        {self.name()}: {k} = {kl}, **{self.name()}: {u()[0]}) -> {ret}:",
+                f"  return {rl}")
+    (a, _), (b, bl), (e, _) = u(), u(), u()     # the same unions nested in containers
+    self.emit(f"def {self.name()}({self.name()}: List[{a}], {self.name()}: Dict[str, {b}] = None,",
+              f"        *, {self.name()}: Optional[Tuple[{e}, ...]] = None) -> Dict[str, List[{u()[0]}]]:",
+              "  return {}")
+    c = self.name(cap=True)                     # methods, static/class methods, __init__
+    base = f"({r.choice(classes)})" if classes and r.random() < 0.5 else ""
+    (a, _), (b, bl), (k, kl), (ret, rl) = u(), u(), u(), u()
+    self.emit(f"class {c}{base}:",
+              f"  {self.name()}: {u()[0]} = {u()[1]}",
+              f"  {self.name()}: List[{u()[0]}] = []",
+              f"  def __init__(self, {self.name()}: {a} = {u()[1]}, *a, **kw) -> None:",
+              "    super().__init__(*a, **kw)" if base else "    pass",
+              f"    self.{self.name()}: {u()[0]} = {self.name() if False else 'None'}",
+              f"  def {self.name()}(self, {self.name()}: {b} = {bl}, *, {self.name()}: {k} = {kl}) -> {ret}:",
+              f"    return {rl}",
+              "  @staticmethod",
+              f"  def {self.name()}({self.name()}: {u()[0]}, {self.name()}: Set[{u(False)[0]}] = None) -> List[{u()[0]}]:",
+              "    return []",
+              "  @classmethod",
+              f"  def {self.name()}(cls, {self.name()}: Dict[str, {u()[0]}]) -> {u()[0]}:",
+              f"    return {rl}")
+    for _ in range(r.randint(2, 3)):          # variables
+      ann, lit = u()
+      k = r.randrange(3)
+      if k == 0:
+        self.emit(f"{self.name()}: {ann} = {lit}")
+      elif k == 1:
+        self.emit(f"{self.name()}: List[{ann}] = [{lit}]")
+      else:
+        self.emit(f"{self.name()}: Dict[str, {ann}] = {{'k': {lit}}}")
+
   def program(self):
     r = self.r
     self.emit("import collections", "import enum",
@@ -685,6 +753,7 @@ class OGen:
               f"def {via}(z):", f"  return {hot}(z)",
               f"{self.name()} = {hot}('a')", f"{self.name()} = {hot}('b')", f"{self.name()} = {via}('c')",
               f"{self.name()} = [{hot}('d'), {via}('e'),", f"    {via}('f')]")
+    self.annotated_unions(classes)
     # a function whose parameter is used with a union receiver -> per-member errors
     f = r.choice(funcs)
     self.emit(f"def {self.name()}(q: Union[int, str, bytes, List[int], None], w: Optional[Dict[str, Set[int]]] = None):",
